@@ -53,6 +53,7 @@ SPEC = PropSpec(
     title="Stream framing is exact and independent of source kind and chunking",
     check=check,
     floors={"R2.1": 3, "R2.2": 2, "R2.3": 1, "R2.4": 2, "R2.4c": 2, "R2.5": 1, "R2.6": 1, "R2.m": 10, "R2.big": 1},
+    fallback={r: ("R2.m", "R2.big") for r in ("R2.roles", "R2.1", "R2.2", "R2.3", "R2.4", "R2.4c", "R2.5", "R2.6")},
     explanation=("Invariants of ccsds_generator as affine facts over its CFG (roles buffer/cursor/length discovered from "
                  "the yield): R2.1 packet length = length field(32,16) + 1 + 6 read from B[P:P+6]; R2.2 exactly one "
                  "cursor skip before and one advance by N after the slice; R2.3 the >20 MB trim is B=B[P:];P=0; R2.4 "
